@@ -134,6 +134,19 @@ func genC19(seed uint64, tier string) *plan.Plan {
 		}
 		p3.Ops = append(p3.Ops, plan.Op{K: "ctl.sleep", Dur: int64(Pick(r, 0, 1, 20, 80, 400))})
 	}
+	if n >= 2 && r.Bool(400) {
+		// the member that runs Destroy cannot reach another member: Destroy either reports the failure
+		// or everything is gone; after the heal a second Destroy must succeed
+		a := r.Intn(n)
+		b := (a + 1 + r.Intn(n-1)) % n
+		p.Cluster.ClientReadTimeoutMs = 500
+		p3.Ops = append(p3.Ops, plan.Op{K: "ctl.cut_link", M: a, Count: b, Dur: int64(r.Intn(2))},
+			plan.Op{K: "destroy", DM: A, Tag: Pick(r, "emb", "raw"), M: a, Flag: true})
+		for _, k := range rkeys {
+			p3.Ops = append(p3.Ops, plan.Op{K: "ctl.get_all", DM: A, Key: k, Tag: "after-faulty-destroy"})
+		}
+		p3.Ops = append(p3.Ops, plan.Op{K: "ctl.heal_all"}, plan.Op{K: "ctl.sleep", Dur: 1500})
+	}
 	p3.Ops = append(p3.Ops, ent(plan.Op{K: "destroy", DM: A}))
 	for _, k := range append(rkeys, keysA[0]) {
 		p3.Ops = append(p3.Ops, plan.Op{K: "ctl.get_all", DM: A, Key: k}, plan.Op{K: "ctl.copies", DM: A, Key: k})
@@ -159,16 +172,24 @@ func oracleC19(p *plan.Plan, his []plan.Rec, res *plan.Result) {
 	recs := sortRecs(his)
 	A := p.DMap
 	destroyed := false
+	aClean := false // the last Destroy of A succeeded and nothing was written to A since
 	hadA, hadB := false, false
 	liveB := map[string]bool{}
 	for i := range recs {
 		r := &recs[i]
 		switch r.Op.K {
 		case "destroy":
+			if r.Err != "" && r.Op.Flag {
+				// a member was unreachable: Destroy reported it, nothing is asserted until the next Destroy
+				aClean = false
+				res.Counters["oracle.destroy_failed_under_fault"]++
+				continue
+			}
 			if r.Err != "" {
 				viol(res, "destroy-failed", errClass(r.Err), "%s", descRecT(r))
 				return
 			}
+			aClean = true
 			destroyed = true
 			for id, sk := range m.keys {
 				if len(id) > len(A) && id[:len(A)+1] == A+"\x00" {
@@ -184,6 +205,9 @@ func oracleC19(p *plan.Plan, his []plan.Rec, res *plan.Result) {
 			if isIndeterminate(r.Err) {
 				viol(res, "unexpected-error/"+r.Op.K, r.Op.DM, "%s", descRecT(r))
 				continue
+			}
+			if r.Op.DM == A && r.Op.K != "get" {
+				aClean = false
 			}
 			before := m.describe(r.Op.DM, r.Op.Key)
 			if bad := m.step(r); len(bad) > 0 {
@@ -209,6 +233,9 @@ func oracleC19(p *plan.Plan, his []plan.Rec, res *plan.Result) {
 				liveB[r.Op.Key] = live
 			}
 		case "ctl.get_all":
+			if !aClean {
+				continue
+			}
 			for _, c := range r.Copies {
 				if c.Err != "" || c.Found {
 					viol(res, "key-survived-destroy", "get", "Get(%s/%s) through m%d after Destroy: found=%v val=%q err=%q [%s]", r.Op.DM, r.Op.Key, c.Member, c.Found, c.Val, c.Err, p.Variant)
@@ -216,7 +243,7 @@ func oracleC19(p *plan.Plan, his []plan.Rec, res *plan.Result) {
 			}
 		case "ctl.copies":
 			for _, c := range r.Copies {
-				if c.Found {
+				if c.Found && aClean {
 					viol(res, "copy-survived-destroy", c.Kind, "m%d still holds a %s copy of %s/%s after Destroy: %q [%s]", c.Member, c.Kind, r.Op.DM, r.Op.Key, c.Val, p.Variant)
 				}
 			}
@@ -225,7 +252,7 @@ func oracleC19(p *plan.Plan, his []plan.Rec, res *plan.Result) {
 				viol(res, "scan-failed", r.Op.DM, "%s", r.Err)
 				continue
 			}
-			if r.Op.DM == A && len(r.Keys) > 0 {
+			if r.Op.DM == A && len(r.Keys) > 0 && aClean {
 				viol(res, "scan-after-destroy-not-empty", r.Op.Tag, "scan of destroyed DMap %q yields %v [%s]", A, r.Keys, p.Variant)
 			}
 			if r.Op.DM != A {
@@ -234,6 +261,12 @@ func oracleC19(p *plan.Plan, his []plan.Rec, res *plan.Result) {
 					got[k] = true
 				}
 				for k, live := range liveB {
+					// a ttl may have run out between the last operation on the key and this scan
+					for _, st := range m.key(r.Op.DM, k).states {
+						if !st.P || (st.Exp != 0 && st.Exp <= m.epochMs+r.TRet/1e6+1) {
+							live = false
+						}
+					}
 					if live && !got[k] {
 						viol(res, "other-dmap-disturbed", "scan", "scan of %q misses live key %s (yields %v) [%s]", r.Op.DM, k, r.Keys, p.Variant)
 					}
@@ -253,7 +286,7 @@ func oracleC19(p *plan.Plan, his []plan.Rec, res *plan.Result) {
 			}
 			for kind, parts := range map[string]map[string]statsPart{"primary": sb.Partitions, "backup": sb.Backups} {
 				for pid, part := range parts {
-					if d, ok := part.DMaps[A]; ok && d.Length > 0 {
+					if d, ok := part.DMaps[A]; ok && d.Length > 0 && aClean {
 						viol(res, "fragment-survived-destroy", kind, "STATS of m%d: %s partition %s still has a fragment of %q with %d keys [%s]", r.Op.M, kind, pid, A, d.Length, p.Variant)
 					}
 				}
